@@ -27,6 +27,25 @@ package transform
 //@ spec tname(t uint64) = t == 0 ? "NONE" : (t == 1 ? "BWT" : (t == 2 ? "BWTS" : (t == 3 ? "LZ" : (t == 5 ? "RLT" : (t == 6 ? "ZRLT" : (t == 7 ? "MTFT" : (t == 8 ? "RANK" : (t == 9 ? "EXE" : (t == 10 ? "TEXT" : (t == 11 ? "ROLZ" : (t == 12 ? "ROLZX" : (t == 13 ? "SRT" : (t == 14 ? "LZP" : (t == 15 ? "MM" : (t == 16 ? "LZX" : (t == 17 ? "UTF" : (t == 18 ? "PACK" : (t == 19 ? "DNA" : ""))))))))))))))))))
 //@ spec tvalid(t uint64) = 0 <= t && t <= 19 && t != 4
 
+//@ -- chains: the canonical name of a packed chain is whatever the (pure, constant-reading) function GetName returns
+//@ uninterp tchain(t uint64) string
+//@ uninterp tchainvalid(t uint64) bool
+
+//@ func GetName
+//@   mode int
+//@   trusted
+//@   props C15
+//@   ensures result1 == nil <==> tchainvalid(functionType)
+//@   ensures result1 == nil ==> result0 == tchain(functionType)
+//@   modifies nothing
+
+//@ func GetType
+//@   mode int
+//@   trusted
+//@   props C15
+//@   ensures result1 == nil ==> tchainvalid(result0)
+//@   modifies nothing
+
 //@ func getByteFunctionNameToken
 //@   mode int
 //@   opt strings smt
